@@ -76,6 +76,7 @@ struct dirent_ { char path[160]; int err; unsigned owner; };
 static struct pwent pwdb[96]; static int npw;
 static struct dirent_ dirdb[96]; static int ndir;
 static hbuf pwtext;
+extern int error_temp();
 
 static void pw_install(const unsigned char *t, size_t n) {
   npw = ndir = 0; hbuf_reset(&pwtext); hbuf_add(&pwtext, t, n);
@@ -91,6 +92,7 @@ static void pw_install(const unsigned char *t, size_t n) {
       if (nf < 3 || ndir >= 96) continue;
       struct dirent_ *d = &dirdb[ndir++];
       snprintf(d->path, sizeof d->path, "%s", f[0] + 1); d->err = atoi(f[1]); d->owner = strtoul(f[2], 0, 10);
+      if (d->err) d->err = error_temp(d->err) ? EIO : ENOENT;      /* two classes only: temporary / permanent */
     } else {
       if (nf < 5 || npw >= 96) continue;
       struct pwent *e = &pwdb[npw++];
@@ -251,7 +253,12 @@ static void do_R(void) {
 }
 static void do_P(const unsigned char *t, size_t n) {
   pw_install(t, n);
-  fputs("P ", h_out); h_hex(t, n); fputc('\n', h_out);
+  /* print the canonical text of what was installed, so that harness and driver cannot read it differently */
+  hbuf c = { 0 }; char ln[512];
+  for (int i = 0; i < npw; i++) { int k = snprintf(ln, sizeof ln, "%s:%u:%u:%s:%d\n", pwdb[i].name, pwdb[i].uid, pwdb[i].gid, pwdb[i].dir, pwdb[i].flag == 1); hbuf_add(&c, ln, k); }
+  for (int i = 0; i < ndir; i++) { int k = snprintf(ln, sizeof ln, "@%s:%d:%u\n", dirdb[i].path, dirdb[i].err, dirdb[i].owner); hbuf_add(&c, ln, k); }
+  fputs("P ", h_out); h_hex(c.p, c.n); fputc('\n', h_out);
+  free(c.p);
 }
 static void do_N(const unsigned char *a, size_t n) {
   hbuf_reset(&cur_assign); hbuf_add(&cur_assign, a, n);
@@ -369,7 +376,7 @@ static size_t gen_name(char *o, int maxlen) {
 }
 
 /* a random, mostly well-formed users/assign; names collected for the probes */
-static char gnames[4096][12]; static int ngnames;
+static char gnames[4096][48]; static int ngnames;
 static void gen_assign(hbuf *a, int nent, int clean) {
   hbuf_reset(a); ngnames = 0;
   for (int i = 0; i < nent; i++) {
@@ -397,7 +404,7 @@ static void gen_assign(hbuf *a, int nent, int clean) {
 }
 
 static void probes_for_names(int flt_every) {
-  char buf[64];
+  char buf[128];
   for (int i = 0; i < ngnames && i < 40; i++) {
     const char *nm = gnames[h_below(ngnames)];
     size_t l = strlen(nm);
@@ -443,7 +450,7 @@ static void gen_pw(hbuf *t) {
     if (h_below(10) == 0) { l = 29 + h_below(6); for (size_t j = 0; j < l; j++) nm[j] = "ab-"[h_below(3)]; nm[l] = 0; }
     else { l = gen_name(nm, 4); for (size_t j = 0; j < l; j++) if (nm[j] == '+' ) nm[j] = 'c'; if (!l) { strcpy(nm, "a"); l = 1; } }
     if (h_below(3)) for (size_t j = 0; j < l; j++) if (nm[j] >= 'A' && nm[j] <= 'Z') nm[j] += 32;
-    if (l < 12 && ngnames < 4096) strcpy(gnames[ngnames++], nm);
+    if (l < 40 && ngnames < 4096) strcpy(gnames[ngnames++], nm);
     unsigned uid = h_below(8) == 0 ? 0 : 2000 + i;
     int home = h_below(10);   /* 0 missing, 1 wrong owner, 2 temp error, 3 EACCES, else fine */
     int flag = h_below(40) == 0;
